@@ -48,6 +48,8 @@ type FuncAn struct {
 	rems        []remRec // x % k for constant k: x == k*q + r
 	projAtom    map[*Atom]projCoef
 	capMemo     map[ssa.Value]Lin
+	atomVal     map[*Atom]ssa.Value // atoms of SSA values
+	phiMulBusy  map[*ssa.Phi]bool
 	memPhis     map[*ssa.BasicBlock][]memPhi
 	capAtomOf   map[*Atom]ssa.Value  // capacity atoms -> the slice value
 	fieldAtomOf map[*Atom]*ssa.Field // atoms of struct-value fields
@@ -162,6 +164,10 @@ func (a *FuncAn) cv(v ssa.Value) ssa.Value {
 
 func (a *FuncAn) valueAtom(v ssa.Value, nonneg bool) *Atom {
 	at := a.atom("v:"+v.Name()+fmt.Sprintf("%p", v), a.valName(v), nonneg)
+	if a.atomVal == nil {
+		a.atomVal = map[*Atom]ssa.Value{}
+	}
+	a.atomVal[at] = v
 	if ins, ok := v.(ssa.Instruction); ok {
 		a.atomDef[at] = ins.Block()
 	}
@@ -602,6 +608,13 @@ func (a *FuncAn) binop(x *ssa.BinOp, bits int, uns bool) Lin {
 		if X.synNonNeg() {
 			at.NonNeg = true
 			a.lemma(Add(X, r, -1))
+			// clearing the k low bits leaves a multiple of 2^k that is at most 2^k-1 below x
+			if Y.IsConst() && Y.C > 0 && (Y.C+1)&Y.C == 0 && Y.C < 1<<30 {
+				k := Y.C + 1
+				a.lemma(Add(r, X, -1).plus(k - 1)) // r >= x - (k-1)
+				a.rems = append(a.rems, remRec{X: r, k: k, r: Konst(0)})
+				a.conds = append(a.conds, condLemma{pre: []Lin{r.plus(-1)}, post: []Lin{r.plus(-k)}, why: "a positive multiple of 2^k is at least 2^k"})
+			}
 		}
 		return r
 	case token.SHL:
